@@ -1375,7 +1375,7 @@ def _relation_atoms(repo: Repo, f: FuncInfo, formula, hay: str, others: set[str]
             try:
                 if _relation_call(repo, f, inner, hay, others, _depth) or _relation_call(repo, f, _expand_names(repo, f, inner), hay, others, _depth):
                     safe.append(mk(a))
-                elif _component_prefix_expr(repo, f, _expand_names(repo, f, inner), hay, next(iter(others))):
+                elif any(_component_prefix_expr(repo, f, _expand_names(repo, f, inner), hay, o) for o in sorted(others)):
                     safe.append(mk(a))
             except RecursionError:
                 raise
